@@ -16,16 +16,18 @@ Kinds == {"gen", "roa", "aspa", "mft"}
 Sizes == {"small", "s127", "s128", "s129", "s255", "s256", "s257"}
 FacetValues == [
     attrs  |-> {"ok", "missing_ct", "missing_md", "missing_st", "dup_ct", "dup_md", "dup_st", "unknown"},
-    digest |-> {"ok", "bad"},
+    digest |-> {"ok", "bad", "short", "long", "empty"},     \* wrong octet; a proper prefix; the digest plus one octet; no octets
     sig    |-> {"ok", "wrongkey", "bitflip"},
     sid    |-> {"ok", "bad"},
     ee     |-> {"ok", "wrongissuer", "expired", "notyet", "akibad"},
     ctattr |-> {"ok", "mismatch"},                   \* content-type attribute vs eContentType
-    cover  |-> {"ok", "outside", "nores", "inherit", "hasip4", "hasip6"},
+    \* ROA: a prefix disjoint from the EE resources / less specific than a resource block / straddling the end of a range /
+    \*      of a family the certificate has no resources for; ASPA: customer outside, inherited, IP resources present
+    cover  |-> {"ok", "outside", "wider", "straddle", "nores", "inherit", "hasip4", "hasip6"},
     crl    |-> {"ok", "revoked"} ]
 Facets == DOMAIN FacetValues
 \* which coverage deviations exist for which kind of object
-CoverFor(k) == CASE k = "roa"  -> {"ok", "outside", "nores"}
+CoverFor(k) == CASE k = "roa"  -> {"ok", "outside", "wider", "straddle", "nores"}
                  [] k = "aspa" -> {"ok", "outside", "inherit", "hasip4", "hasip6"}
                  [] OTHER -> {"ok"}
 Conforming == [f \in Facets |-> "ok"]
